@@ -34,7 +34,9 @@ PROBES = ['# h #\n', 't\n===\n', '> q\nl\n---\n', '```py\nc\n```\n', '<!-- c\n--
           # entity handling outside the inline tokenizer (definitions, info strings) depends on which pattern html._charref holds
           '[r]: /u?a&copy=1 "t&lt x&ampy"\n\n[r]\n', '``` a&copy&amp\nc\n```\n\n> [q]: <&reg> (&copy)\n>\n> ![q]\n',
           # a code block in a language Pygments does not know (strict mode refuses it, lenient mode guesses) and one it knows
-          '```frobnicate\nlet x = 1\n```\n\n```python\nx = 1\n```\n']
+          '```frobnicate\nlet x = 1\n```\n\n```python\nx = 1\n```\n',
+          # headings that consist of the opening sequence only (every scratch attribute of Heading must be rewritten for them too)
+          '#\n\n## \n\n### #\n']
 FAULT_PROBES = [2, 5, 6, 13, 14]
 # second part of the observation vector: every text of <= 2 (thorough: 3) lines over the line alphabet under the
 # renderers whose constructors do not all touch the token lists (so that state left behind by an earlier context
